@@ -54,6 +54,11 @@ CLAIMED = {
    text="TLC checks that the emitted key sequence is a function of the key set only and ascends bytewise (upper before lower case, prefixes first, non-ASCII last) for every supply order of 1..4 keys. Each supply order is replayed by calling the real writers' WriteMap / BuildQueryParams / AddKey in exactly that order; the emitted order must be the specification's and the bytes identical across supply orders. Every VT value (from Values.tla) is encoded three times from freshly built maps in five flavours, object keys must ascend at every level, and a digest over all outputs must be identical in several fresh processes (different map hash seeds).",
    note="v2 only (as stated); ids are compared in decoded form and, for keys with non-ASCII bytes, only for permutation invariance; signed zeros are not compared",
    design="5/C09"),
+ "C10": dict(
+   technique="TLA+ normal form Norm (Values.tla: fields and map entries as sets, -0 identified with 0) as the oracle of abstract equality, exported by TLC for every enumerated value; real Equals / ComputeHash / ComplexKeyEquals evaluated on all pairs of a pool of four representations per value and compared with Norm equality",
+   text="TLC exports Norm(v) for every value of every VT schema and checks that it is stable under canonicalisation. The harness builds, per value, four representations (built, rebuilt independently, nil instead of empty collections, round-tripped) and evaluates the generated Equals on all pairs (sampled beyond 400000 pairs per schema): Equals must coincide with equality of the specification's normal forms (hence reflexive, symmetric, transitive, insensitive to map order and nil-vs-empty, sensitive to every single-position mutation), must be symmetric, equal values must hash equally, complex keys must compare and hash on their key part only.",
+   note="pairs involving NaN only must not be equal when Norm differs; values carrying a raw record are skipped (RawRecord.Equals is never true by design); process independence of hashes is not re-checked here",
+   design="5/C10"),
 }
 
 NOT_YET = {}
